@@ -159,8 +159,10 @@ pub fn run_case(ctx: &mut Ctx, c: &Case) {
         }
         ReadPlan::Bytes => ctx.count("plan_bytes", 1),
         ReadPlan::WriteTo => ctx.count("plan_write_to", 1),
+        ReadPlan::WriteToShort(_) => ctx.count("plan_write_to_short_sink", 1),
         ReadPlan::TextUtf8 => ctx.count("plan_text_utf8", 1),
         ReadPlan::ReadToEnd => ctx.count("plan_read_to_end", 1),
+        ReadPlan::TextReader { .. } => ctx.count("plan_text_reader", 1),
     }
     if nsteps == built.wire.len() && nsteps > 1 {
         ctx.count("bytewise_cases", 1);
@@ -376,8 +378,11 @@ fn run_large(ctx: &mut Ctx, rng: &mut Rng, index: u64) {
         2 => Segmentation::Cuts(vec![65_536, 65_537, 131_072]),
         _ => respgen::random_segmentation(rng, b_len, &[65_536, 65_600, 131_072, 131_200]),
     };
-    let plan = match rng.below(5) {
+    let plan = match rng.below(8) {
         0 => ReadPlan::Bytes,
+        5 => ReadPlan::Loop { sizes: vec![7, 65_536], via_split: false },
+        6 => ReadPlan::Loop { sizes: vec![1, 1 << 20, 4096, 65_537], via_split: true },
+        7 => ReadPlan::TextUtf8,
         1 => ReadPlan::Loop { sizes: vec![65_536], via_split: false },
         2 => ReadPlan::Loop { sizes: vec![1 << 20, 0], via_split: true },
         3 => ReadPlan::Loop { sizes: vec![4096, 7, 1], via_split: false },
